@@ -50,7 +50,7 @@ def init_strategy(draw):
         "comps": _comps(draw),
         "program": draw(st.one_of(st.none(), st.fixed_dictionaries({
             "type": st.sampled_from(["polynomial", "polynomial", "exponential", "logarithmic"]), "rate": gen.uniform(-3.0, 3.0),
-            "as_array": st.booleans()}))),
+            "as_array": st.booleans(), "offset": st.sampled_from([0.0, 0.0, 0.5, -0.5, 5.0, -5.0])}))),
         "length": draw(st.integers(2, 12)),
         "points": pts, "perms": [draw(gen.loguniform(1e-4, 0.3)), draw(gen.loguniform(1e-4, 0.3))],
     }
